@@ -246,6 +246,25 @@ def walk_attr_sites(sf):
                         yield f["file"], a, {"kind": kind, "ident": "%s.%s" % (it["ident"], m["ident"]), "owner": it, "member": m, "mod": it.get("mod")}
 
 
+CODEC_DERIVES = {"Encode", "Decode", "CompactAs", "MaxEncodedLen", "DecodeWithMemTracking"}
+
+
+def _codec_derives_only_under(owner, pred):
+    """every codec derive on `owner` sits in a cfg_attr with exactly the predicate `pred` (none is unconditional or under another condition)"""
+    found = 0
+    for a in owner.get("attrs", []):
+        if a["meta"]["path"] == "derive":
+            if any(n_["path"].split("::")[-1] in CODEC_DERIVES for n_ in a["meta"].get("nested", [])):
+                return False
+        elif a["meta"]["path"] == "cfg_attr":
+            for m in _flatten_cfg_attr(a.get("attrs", [])):
+                if m["path"] == "derive" and any(n_["path"].split("::")[-1] in CODEC_DERIVES for n_ in m.get("nested", [])):
+                    if S.pred_str(a["pred"]) != pred:
+                        return False
+                    found += 1
+    return found > 0
+
+
 def classify_sites(chk, sf):
     chk.rule("R15.1", "every feature-conditional construct of the library is of a neutral kind (cannot change an encoded registry) or of one of "
              "the content-relevant kinds with its own rule; an unclassified site is reported")
@@ -272,6 +291,10 @@ def classify_sites(chk, sf):
                     badd = [d for d in ds if d not in NEUTRAL_DERIVES]
                     if badd:
                         bad.append("derive(%s)" % ",".join(badd))
+                elif m["path"] == "codec" and g["kind"] in ("field", "variant") and _codec_derives_only_under(g["owner"], pred):
+                    # a helper attribute of the codec derives, present exactly when the only codec derive of the owner is (the writer is then
+                    # hand-written or derived elsewhere: R6.1/R7.2 compare it with the reader in every configuration)
+                    pass
                 elif m["path"] not in NEUTRAL_ATTR_PAYLOAD:
                     bad.append("%s(%s)" % (m["path"], m.get("tokens", "")))
             if bad:
@@ -295,6 +318,10 @@ def classify_sites(chk, sf):
             elif k == "impl" and feats == {"bit-vec"} and (g.get("trait") or "").split("::")[-1] == "TypeInfo" and (g.get("self_ty") or g.get("ident") or "").replace(" ", "").startswith("bitvec::"):
                 # the bit-vec impls outside their module: still only `impl TypeInfo for bitvec::..` (types that do not exist without the feature)
                 kind = "bit-vec-impl"
+            elif k == "impl" and not g.get("trait") and g["item"].get("items") and all(
+                    ii.get("kind") == "fn" and ii["ident"] in ("docs", "docs_portable") for ii in g["item"]["items"]):
+                # the condition hoisted from the setters to an inherent impl block that holds nothing else
+                kind = "docs-setter"
             elif k == "trait" and g["ident"] == "JsonSchemaMaybe":
                 kind = "neutral-trait"
             elif k == "impl-fn" and feats <= {"docs"} and g["member"]["ident"] in ("docs", "docs_portable"):
